@@ -30,6 +30,12 @@ type C14Case struct {
 	Lits      []C14Lit `json:"lits"`
 	Namespace string   `json:"namespace"`
 	TwoFiles  bool     `json:"two_files,omitempty"`
+	// CalleeLast: in the one-file layout the called template comes after its caller
+	CalleeLast bool `json:"callee_last,omitempty"`
+	// Prog, when set, replaces the literal carriers by a whole generated bundle: only the structural
+	// half of the property is judged on it (every file well-formed under both formatters, one function
+	// per template under its qualified name)
+	Prog *gen.ProgCase `json:"prog,omitempty"`
 }
 
 var c14Places = []string{"text", "literal", "string", "string-esc", "mapkey", "css", "msgtext", "global", "param-content", "switch-case", "mapvalue", "listitem"}
@@ -40,7 +46,12 @@ var c14Pieces = []string{"'", "\"", "\\", "\n", "\r", "\t", "\u2028", "\u2029", 
 	`\u000A`, `\u000D`, `\u0009`, `\u003C`, `\u0022`, `\u0027`, `\u2028`, `\x3C`, `\r`, `\t`, `\'`, `\"`, `\\`, `\0`, `\u10FFFF`, `\uD834\uDD1E`}
 
 func genC14(t *rapid.T) C14Case {
-	c := C14Case{Namespace: rapid.SampledFrom([]string{"a", "a.b", "a.b.c", "ns1.sub_2.x.y", "soyapp.views"}).Draw(t, "ns"), TwoFiles: rapid.Bool().Draw(t, "twoFiles")}
+	if rapid.IntRange(0, 9).Draw(t, "whole-bundle") < 3 {
+		g := &gen.G{T: t, P: gen.Profile{Common: true, Unicode: true, HTMLChars: true, Directives: true}}
+		pc := gen.GenProgram(g, gen.ProgOpts{MaxTemplates: 6, MaxDepth: 3, MaxCmds: 4, ExprDepth: 2, PosWeight: 4, ScopeWeight: 6, CallWeight: 14, MinTemplates: 2, MsgWeight: 4, MsgStress: 30})
+		return C14Case{Prog: &pc}
+	}
+	c := C14Case{CalleeLast: rapid.Bool().Draw(t, "calleeLast"), Namespace: rapid.SampledFrom([]string{"a", "a.b", "a.b.c", "ns1.sub_2.x.y", "soyapp.views"}).Draw(t, "ns"), TwoFiles: rapid.Bool().Draw(t, "twoFiles")}
 	for i, n := 0, rapid.IntRange(1, 6).Draw(t, "nlits"); i < n; i++ {
 		var b strings.Builder
 		switch rapid.IntRange(0, 9).Draw(t, "shape") {
@@ -148,6 +159,8 @@ func buildC14(c C14Case) (gen.ProgCase, string) {
 	p := ref.Program{Globals: globals}
 	if c.TwoFiles {
 		p.Files = []ref.File{{Name: "a.soy", Namespace: c.Namespace, Templates: []ref.Template{main}}, {Name: "b.soy", Namespace: c.Namespace, Templates: []ref.Template{echo}}}
+	} else if c.CalleeLast {
+		p.Files = []ref.File{{Name: "a.soy", Namespace: c.Namespace, Templates: []ref.Template{main, echo}}}
 	} else {
 		p.Files = []ref.File{{Name: "a.soy", Namespace: c.Namespace, Templates: []ref.Template{echo, main}}}
 	}
@@ -165,7 +178,75 @@ func needsJSEscape(s string) bool {
 
 var c14rec *recorder
 
+// checkC14Bundle is the structural half of the property on a whole generated bundle.
+func checkC14Bundle(pc *gen.ProgCase) Verdict {
+	names, srcs := gen.Sources(&pc.Prog)
+	cb, err, pn := compileBundle(names, srcs, pc.Prog.Globals)
+	if err != nil || pn != nil {
+		return excluded("the compiler does not accept the bundle (outside the property's domain)")
+	}
+	var all []jsFile
+	msgs := identityBundle(cb)
+	for _, o := range []soyjs.Options{{}, {Messages: msgs}} {
+		es5, err := jsSources(cb, o, false)
+		if err != nil {
+			return bad(true, "%v\n%s", err, showSources(names, srcs))
+		}
+		o.Formatter = &soyjs.ES6Formatter{}
+		es6, err := jsSources(cb, o, true)
+		if err != nil {
+			return bad(true, "%v\n%s", err, showSources(names, srcs))
+		}
+		all = append(append(all, es5...), es6...)
+	}
+	var fqs []string
+	for _, f := range pc.Prog.Files {
+		for _, t := range f.Templates {
+			fqs = append(fqs, f.Namespace+"."+t.Name)
+		}
+	}
+	resp, err := theNode.do(jsRequest{Files: all, Typeofs: fqs})
+	if err != nil {
+		return excluded("infra: " + err.Error())
+	}
+	for i, l := range resp.Load {
+		if l != nil {
+			kind := "ES5"
+			if all[i].Module {
+				kind = "ES6"
+			}
+			return bad(true, "generated %s JavaScript for %s is not well-formed: %s\n%s\n%s", kind, all[i].Name, *l, showSources(names, srcs), trunc(all[i].Src, 3000))
+		}
+	}
+	for i, ty := range resp.Typeofs {
+		if ty != "function" {
+			return bad(true, "template %s is not defined as a function under its qualified name (typeof = %s)\n%s", fqs[i], ty, showSources(names, srcs))
+		}
+	}
+	// under the ES6 formatter: every template exported exactly once, and nothing both imported and declared
+	for _, f := range all {
+		if !f.Module {
+			continue
+		}
+		for _, fq := range fqs {
+			id := soyjs.ES6Identifier(fq)
+			nExp := strings.Count(f.Src, "export function "+id+"(")
+			nImp := strings.Count(f.Src, "import { "+id+" }")
+			if nExp > 1 || nExp == 1 && nImp > 0 {
+				return bad(true, "ES6 output of %s declares %s %d time(s) and imports it %d time(s)\n%s", f.Name, id, nExp, nImp, trunc(f.Src, 3000))
+			}
+		}
+	}
+	if c14rec != nil {
+		c14rec.add("whole_bundles_translated", 1)
+	}
+	return ok(len(fqs) > 1, "whole-bundle")
+}
+
 func checkC14(c C14Case) Verdict {
+	if c.Prog != nil {
+		return checkC14Bundle(c.Prog)
+	}
 	if os.Getenv("VERIF_WITNESS") == "" && findingOpen("F35") {
 		for _, l := range c.Lits {
 			if l.Place == "mapkey" && l.S == "__proto__" {
